@@ -167,6 +167,7 @@ func (fc *FnCtx) assign(st *State, lhs ast.Expr, v Val) {
 			}
 			if n == len(idx)-1 {
 				if isPtr {
+					fc.guardCheckRW(st, cur, i, l, true)
 					fc.writeFieldPtr(st, cur, i, v.T)
 					if len(chain) > 0 {
 						fc.unsupp(l.Pos(), "mixed pointer/value field path")
@@ -211,13 +212,20 @@ func (fc *FnCtx) assign(st *State, lhs ast.Expr, v Val) {
 			v = fc.convertAssign(st, v, u.Elem())
 			fc.ownershipCheck(st, l, m, k, "store")
 			if r := fc.root(); r.ct != nil && len(r.ct.StorePre) > 0 {
+				// the map is named by the field that holds it, or - for a local map of the function itself - by the variable
+				mapName := ""
 				if se, ok := ast.Unparen(l.X).(*ast.SelectorExpr); ok {
+					mapName = se.Sel.Name
+				} else if id, ok := ast.Unparen(l.X).(*ast.Ident); ok && r == fc {
+					mapName = id.Name
+				}
+				if mapName != "" && len(r.ct.StorePre[mapName]) > 0 {
 					dk, ds, _, _ := fc.mapKeys(u)
 					present := Val{sel(sel(fc.comp(st, dk, ds), m.T), k.T), types.Typ[types.Bool]}
-					for i, cl := range r.ct.StorePre[se.Sel.Name] {
+					for i, cl := range r.ct.StorePre[mapName] {
 						env := &SpecEnv{fc: r, st: st, old: r.entry, scope: map[string]Val{"$key": k, "$map": m, "$present": present, "$value": v}, oldScope: r.paramsEntry, pkg: r.ctPkg(), useVars: true}
 						g := r.safeSpec(env, cl.E, cl.Text)
-						fc.assertNamed(st, "own", "store."+se.Sel.Name+"."+clauseName(cl, i), g.T, "whenever an entry of "+se.Sel.Name+" is stored: "+cl.Text, l.Pos())
+						fc.assertNamed(st, "own", "store."+mapName+"."+clauseName(cl, i), g.T, "whenever an entry of "+mapName+" is stored: "+cl.Text, l.Pos())
 					}
 				}
 			}
@@ -599,6 +607,13 @@ func (fc *FnCtx) checkInvs(st *State, n int, tag string, extra map[string]Val, p
 
 func (fc *FnCtx) assumeInvs(st *State, n int, extra map[string]Val) {
 	fc.curLoop = n
+	// the body is about to be executed for an arbitrary iteration: remember where its allocations start
+	for ls, k := range fc.loopOrd {
+		if k == n {
+			r := fc.root()
+			r.iterMarks = append(r.iterMarks, iterMark{ls.Pos(), ls.End(), st.top})
+		}
+	}
 	fc.assumeFrame(st)
 	if fc.ct == nil {
 		return
@@ -1352,7 +1367,7 @@ func (fc *FnCtx) chanSend(st *State, ch Val, v Val, s *ast.SendStmt) []Outcome {
 	}
 	if r := fc.root(); r.ct != nil && s != nil {
 		for i, cl := range r.ct.SendPre[exprText(s.Chan)] {
-			env := &SpecEnv{fc: fc, st: st, old: r.entry, scope: map[string]Val{"$value": v}, oldScope: fc.paramsEntry, pkg: fc.ctPkg(), useVars: true}
+			env := &SpecEnv{fc: fc, st: st, old: r.entry, scope: map[string]Val{"$value": v}, oldScope: fc.paramsEntry, pkg: fc.ctPkg(), useVars: true, pos: s.Pos()}
 			g := fc.safeSpec(env, cl.E, cl.Text)
 			fc.assertNamed(st, "emit", "send."+exprText(s.Chan)+"."+clauseName(cl, i), g.T, "whenever a value is sent on "+exprText(s.Chan)+": "+cl.Text, s.Pos())
 		}
